@@ -427,6 +427,20 @@ pub fn surgery<S: Surgery + UniSch>(rec: &mut Rec) {
                         let shown = LabeledCommitment::new("u".to_string(), cm, Some(bp));
                         run_pair::<S>(rec, &id, &format!("unbounded+{}", name), &keys, &[&shown], &zp, &su.values, &su.proof, &never, "unbounded commitment given a borrowed shifted part and a bound label");
                     }
+                    // the two bounded commitments opened TOGETHER at the point, their shifted parts exchanged (a verifier
+                    // that weighs the shifted parts of equal-bound commitments with one common challenge cannot tell)
+                    if let Ok(spq) = open_single::<S>(&keys, &c, &[0, 1], &zp, 0, rec.seed, 0) {
+                        let from_q: Vec<(String, Cm<S>)> = S::surgeries(cp, cq).into_iter().filter(|(n, _)| n == "shifted-from-other").collect();
+                        let from_p: Vec<(String, Cm<S>)> = S::surgeries(cq, cp).into_iter().filter(|(n, _)| n == "shifted-from-other").collect();
+                        if let (Some((_, p_sw)), Some((_, q_sw))) = (from_q.first(), from_p.first()) {
+                            let shown_p = LabeledCommitment::new("p".to_string(), p_sw.clone(), Some(bp));
+                            let shown_q = LabeledCommitment::new("q".to_string(), q_sw.clone(), Some(bq));
+                            run_pair::<S>(rec, &id, "shifted-parts-exchanged-in-group", &keys, &[&shown_p, &shown_q], &zp, &spq.values, &spq.proof, &never, "two bounded commitments opened together, their shifted parts exchanged");
+                            // and only one of them carrying the other's shifted part
+                            let honest_q = LabeledCommitment::new("q".to_string(), cq.clone(), Some(bq));
+                            run_pair::<S>(rec, &id, "shifted-from-other-in-group", &keys, &[&shown_p, &honest_q], &zp, &spq.values, &spq.proof, &never, "two bounded commitments opened together, the first carrying the shifted part of the second");
+                        }
+                    }
                     rec.sample(&format!("{}-surgery", S::NAME), format!("{}", id));
                 }
             }
